@@ -169,7 +169,7 @@ Proof. vm_compute. auto. Qed.
 (** the whole balance goes to the beneficiary, the contract is deleted, the supply is unchanged *)
 Example sd_to_other_conserves :
   model_obs w_sd_to_other = impl_obs w_sd_to_other /\ b_ok (model_obs w_sd_to_other) = true /\
-  b_supply (model_obs w_sd_to_other) = 0 /\ b_alive (model_obs w_sd_to_other) = [false; true; true] /\
+  b_supply (model_obs w_sd_to_other) = 0 /\ firstn 3 (b_alive (model_obs w_sd_to_other)) = [0; 2; 2] /\
   nth 1 (b_bal (model_obs w_sd_to_other)) 0 = 5025.
 Proof. vm_compute. auto. Qed.
 (** the sanctioned burn: a contract that self-destructs to itself destroys its balance (4000 + the 25 it was sent) *)
@@ -198,7 +198,7 @@ Proof. vm_compute. auto. Qed.
 (** a self-destruct inside a reverted frame leaves no trace: the contract lives on *)
 Example sd_in_reverted_frame_undone :
   model_obs w_sd_in_reverted_frame = impl_obs w_sd_in_reverted_frame /\ b_ok (model_obs w_sd_in_reverted_frame) = true /\
-  b_supply (model_obs w_sd_in_reverted_frame) = 0 /\ b_alive (model_obs w_sd_in_reverted_frame) = [true; true; true].
+  b_supply (model_obs w_sd_in_reverted_frame) = 0 /\ firstn 3 (b_alive (model_obs w_sd_in_reverted_frame)) = [2; 2; 2].
 Proof. vm_compute. auto. Qed.
 (** ... so that a third, committed self-destruct pays out exactly what the contract had received: the
     signer gets the 1000 (a revert that forgot to restore the balance would have destroyed them) *)
@@ -207,3 +207,33 @@ Example sd_third_after_reverted_pays_out :
   b_ok (model_obs w_sd_third_after_reverted) = true /\
   b_supply (model_obs w_sd_third_after_reverted) = 0 /\ nth 0 (b_bal (model_obs w_sd_third_after_reverted)) 0 = 6000.
 Proof. vm_compute. auto. Qed.
+
+(** * CREATE *)
+(** a successful creation: the endowment moves, the new account has code and the constructor's storage, the creator's nonce counts it *)
+Example cr_success :
+  model_obs w_cr_success = impl_obs w_cr_success /\ b_ok (model_obs w_cr_success) = true /\
+  b_supply (model_obs w_cr_success) = 0 /\ nth 14 (b_bal (model_obs w_cr_success)) 0 = 100 /\
+  nth 3 (b_alive (model_obs w_cr_success)) 0 = 2 /\ b_nonce (model_obs w_cr_success) = [1; 0; 0].
+Proof. vm_compute. repeat split; reflexivity. Qed.
+(** a creation whose constructor reverts leaves nothing but the creator's nonce; the next creation lands on the next
+    address, and a constructor that returns no code leaves an account with storage and without code *)
+Example cr_failed_then_codeless :
+  model_obs w_cr_failed_then_codeless = impl_obs w_cr_failed_then_codeless /\ b_ok (model_obs w_cr_failed_then_codeless) = true /\
+  b_supply (model_obs w_cr_failed_then_codeless) = 0 /\
+  nth 14 (b_bal (model_obs w_cr_failed_then_codeless)) 0 = 0 /\ nth 15 (b_bal (model_obs w_cr_failed_then_codeless)) 0 = 5 /\
+  nth 3 (b_alive (model_obs w_cr_failed_then_codeless)) 0 = 0 /\ nth 4 (b_alive (model_obs w_cr_failed_then_codeless)) 0 = 1 /\
+  b_nonce (model_obs w_cr_failed_then_codeless) = [2; 0; 0].
+Proof. vm_compute. repeat split; reflexivity. Qed.
+(** CreateAccount over an address that already holds coins, in a frame that reverts: the 7 coins sent before stay, the
+    endowment of 100 returns to the creator (resetObjectChange restores the previous object) *)
+Example cr_reverted_on_funded_address :
+  model_obs w_cr_reverted_on_funded_address = impl_obs w_cr_reverted_on_funded_address /\
+  b_ok (model_obs w_cr_reverted_on_funded_address) = true /\ b_supply (model_obs w_cr_reverted_on_funded_address) = 0 /\
+  nth 14 (b_bal (model_obs w_cr_reverted_on_funded_address)) 0 = 7 /\ nth 2 (b_bal (model_obs w_cr_reverted_on_funded_address)) 0 = 3993.
+Proof. vm_compute. repeat split; reflexivity. Qed.
+(** a creation inside a frame that reverts does not even move the creator's nonce: the later creation reuses the address *)
+Example cr_nested_reverted_then_selfdestruct :
+  model_obs w_cr_nested_reverted_then_selfdestruct = impl_obs w_cr_nested_reverted_then_selfdestruct /\
+  b_ok (model_obs w_cr_nested_reverted_then_selfdestruct) = true /\ b_supply (model_obs w_cr_nested_reverted_then_selfdestruct) = 0 /\
+  b_nonce (model_obs w_cr_nested_reverted_then_selfdestruct) = [0; 1; 0] /\ nth 0 (b_bal (model_obs w_cr_nested_reverted_then_selfdestruct)) 0 = 4966.
+Proof. vm_compute. repeat split; reflexivity. Qed.
